@@ -288,8 +288,17 @@ def run(ctx) -> Report:
         ({(0,): 0, (1,): 1, (2,): 0}, 2),
         ({(0, 0): 0, (0, 1): 1, (0, 2): 2, (1, 0): 1, (1, 1): 3, (1, 2): 4, (2, 0): 2, (2, 1): 4, (2, 2): 5}, 6),
     ]
+    # a symmetry map is a mapping: the order in which its entries were inserted is not part of its meaning
+    def insertion_orders(symm):
+        items = list(symm.items())
+        yield "row-major", dict(items)
+        yield "reversed", dict(reversed(items))
+        yield "lower triangle first", dict(sorted(items, key=lambda kv: (tuple(reversed(kv[0])), kv[1])))
+        yield "by sub-element, last first", dict(sorted(items, key=lambda kv: (-kv[1], kv[0])))
+
+    symmetries = [(dict(d), nsub, order) for symm, nsub in symmetries for order, d in insertion_orders(symm)]
     for gdim, tdim in [(2, 2), (3, 2)]:
-        for symm, nsub in symmetries:
+        for symm, nsub, order in symmetries:
             for cname, nmapped in (("IdentityPullback", 0), ("ContravariantPiola", 1), ("CovariantPiola", 1)):
                 dom = make_domain(gdim, tdim)
                 ip = new_interp(dom)
@@ -302,7 +311,7 @@ def run(ctx) -> Report:
                 ip.call_function(f_init, [el, dict(symm)], {}, self_obj=pb)
                 el.attrs["pullback"] = pb
                 r = T.symbolic("r", (size * nsub,))
-                what = f"SymmetricPullback.apply gdim={gdim} tdim={tdim} symmetry={symm} sub pullback {cname}"
+                what = f"SymmetricPullback.apply gdim={gdim} tdim={tdim} symmetry={symm} (entries inserted {order}) sub pullback {cname}"
                 block = tuple(i + 1 for i in max(symm.keys()))
                 comps_rs = list(itertools.product(*[range(d) for d in rs]))
                 data = {}
